@@ -132,7 +132,7 @@ def make_policy(desc, rng):
     if kind == "uniform":
         return sched.Policy("uniform", rng, p=desc["p"])
     if kind == "sites":
-        return sched.Policy("sites", rng, p=desc["p"], p_site=desc["p_site"], sites=_sites())
+        return sched.Policy("sites", rng, p=desc["p"], p_site=desc["p_site"], sites=_sites(), window=desc.get("window", 3))
     if kind == "burst":
         return sched.Policy("burst", rng, p=desc["p"], p_early=desc["p_early"], k=desc["k"])
     if kind == "pct":
@@ -283,7 +283,7 @@ def gen_case(rng):
             "k": rng.choice([60, 200, 600, 1500]),
         }
     elif roll < 0.7:
-        policy = {"kind": "sites", "p": rng.choice([0.0, 0.005, 0.02]), "p_site": rng.choice([0.3, 0.6, 0.9])}
+        policy = {"kind": "sites", "p": rng.choice([0.0, 0.005, 0.02]), "p_site": rng.choice([0.3, 0.6, 0.9]), "window": rng.choice([1, 1, 2, 3])}
     else:
         # PCT: change points drawn from the step count of a reference run
         est = 400 * sum(len(t) for t in threads)
